@@ -148,7 +148,7 @@ end
 
 /-- A tree the compilability model accepts meets the structural hypothesis of the compare/length theorems. -/
 theorem uncompilableShape_of_uncompilable (root : Node) (h : uncompilable root = none) : uncompilableShape root = none := by
-  unfold uncompilable at h
+  unfold uncompilable uncompilableWith at h
   cases hs : uncompilableShape root with
   | none => rfl
   | some c => simp [hs] at h
